@@ -3,4 +3,6 @@ EXTENDS BSPSim
 MCProducers == @PRODUCERS@
 MCFlushers == @FLUSHERS@
 MCStoppers == @STOPPERS@
+MCOutcomes == @OUTCOMES@
+MCExpiring == @EXPIRING@
 =============================================================================
